@@ -427,18 +427,7 @@ pub(crate) fn parse_unknown_ifdata(
                             parser.undo_get_token();
                             let floatnum = parser.get_double(context)?; // if this also returns an error, it is neither int nor float, which is a genuine parse error
                             let line_offset = parser.get_line_offset();
-                            if floatnum.fract() == 0.0 && floatnum.abs() <= 1e10 {
-                                // a float without a fractional part is written without a decimal point, and it is an
-                                // integer when the file is loaded again. Store it as an integer, so that the loaded data is stable
-                                let intnum = floatnum as i64;
-                                if let Ok(intnum32) = i32::try_from(intnum) {
-                                    items.push(GenericIfData::Long(line_offset, (intnum32, false)));
-                                } else {
-                                    items.push(GenericIfData::Int64(line_offset, (intnum, false)));
-                                }
-                            } else {
-                                items.push(GenericIfData::Double(line_offset, floatnum));
-                            }
+                            items.push(GenericIfData::Double(line_offset, floatnum));
                         }
                     }
                 }
